@@ -16,7 +16,9 @@ HDR = "From BV Require Import Lib.Regex Model.V2 Model.Pep440."
 
 BODIES = ["YYYY.BUILD", "YYYY0M.BUILD", "YYYY.0M.0D", "YYYY.MM.DD", "YYYY.0M.BUILD", "MAJOR.MINOR.PATCH", "MAJOR.MINOR", "YYYY.0W.PATCH",
           "YYYY.00J.BLD", "YY.0M.PATCH", "YYYY.0M", "MAJOR.MINOR.PATCH.BUILD", "YYYY.MM.INC0", "GGGG.0V.INC1", "YYYY.Q.PATCH", "0Y.0M.0D",
-          "MAJOR[.MINOR[.PATCH]]", "YYYY.0U.MINOR"]
+          "MAJOR[.MINOR[.PATCH]]", "YYYY.0U.MINOR",
+          # two calendar parts in one dot-separated component: only a part that STARTS a component loses its padding
+          "YYYY.0M0D", "YYYY.MM0D.PATCH", "YY0M.0D.BUILD"]
 TAGS = ["", "[-TAG]", "[-TAGNUM]", "[-TAG[NUM]]", "[PYTAGNUM]", "[PYTAG[NUM]]", "-TAG", "-TAGNUM", "[.TAGNUM]", "[-TAG.NUM]"]
 
 
